@@ -57,6 +57,24 @@ Node.register / unregister / on_free (silent), query_tree / dump_tree of
 groups, the server and RootNode, RootNode's refusals, Server.free_nodes,
 free_default_group(all_users), unregister / register / quit against a
 stand-in server.  Not reached: Server.boot / reboot / quit of a real process.
+
+Login histories (round 10; the class the workload did not reach: every shard
+put its server into shape by calling Server._set_client_id() itself before
+each history, so the ids a session uses after the server's LOGIN REPLY were
+never observed).  Shard rtlogin (vf/c17_login.py): a fresh Server object per
+case, constructed with default or explicit options, options edited on the
+object afterwards (hardware channels, bus / buffer counts, max_logins,
+initial_node_id, reserved_*), Server.register() against the stand-in whose
+'/done /notify clientID [maxLogins]' reply runs through the real responder
+path - confirming the id the object already has or changing it, maxLogins
+equal to / different from the local option / absent - optionally unregister,
+more edits and a second login.  Then buses and buffers are allocated (small,
+nearly filling, exceeding the share), mentioned in /s_new, /n_set, /n_map*,
+map symbols, /c_*, /b_*, and free_default_group(all_users) / free_nodes run.
+Oracle: an sc3-free layout from the CURRENT options and the REPORTED maxLogins
+(hardware channels excluded for audio buses; the client's partition for control
+buses, buffers and node ids; one default group per login; own default group as
+target); keys C17/login/<mechanism>/<reply-confirms|reply-changes>-client-id.
 """
 
 import os
@@ -79,7 +97,11 @@ RULE = ("seeded random histories (3-90 operations) over a pool of synths, "
         "waits), every block raises with p 0.2-0.45 at a random point and is caught "
         "directly or further out; non-trivial = depth >= 2 and >= 2 operations.  "
         "Entry point cases: one call of a method no history reaches with random "
-        "sizes / flags, replies of the stand-in server fed back")
+        "sizes / flags, replies of the stand-in server fed back.  Login cases: 1-2 "
+        "logins of a fresh Server object (options at construction, 0-4 option groups "
+        "edited before each login, reply client id same / other, maxLogins same / other / "
+        "absent) each followed by 4-14 allocations and mentions; non-trivial = options "
+        "edited or reported maxLogins differs")
 ASSUMPTIONS = [
     "vf/cmdref.py and vf/model_cmds.py transcribe the Server Command Reference "
     "and the SuperCollider class documentation correctly",
@@ -92,6 +114,14 @@ ASSUMPTIONS = [
     "(one-sided range test, same in sclang); counter "
     "observed_seti_negative_offset_addresses_neighbour, note for the maintainer "
     "in proposed_fixes/C17-seti-negative-offset.md",
+    "login shard: the id layout is the SuperCollider convention (Server.newAllocators): "
+    "per-client share = resource // maxLogins at offset share * clientID (+ outputs + "
+    "inputs for audio buses), the first reserved_* ids of a share are not handed out, "
+    "node ids clientID * 2**26 + [initial_node_id, 2**26), default group 2**26 * i + 1 "
+    "per login; it is evaluated with the option values at the time of the login reply "
+    "and the maxLogins of the reply (the local option when the reply has none); the "
+    "reply's client id is always one the local max_logins admits; objects of an earlier "
+    "login are freed before the next one; a refused allocation is accepted",
     "objects created inside a block that raised are never used again "
     "(their creation command was never sent)",
     "use after free: BusAlreadyFreed / BufferAlreadyFreed / BusException('bus not "
@@ -147,6 +177,15 @@ MIN_COUNTERS = {
               'entry_lifecycle:unregister': 1, 'entry_rootnode_refusals_checked': 60,
               'entry_data_files_parsed': 40, 'entry_stream_chunks_compared': 60,
               'entry_silent_calls_checked': 60, 'entry_sync_points_observed': 100,
+              'login_rounds_checked': 80, 'login_id_mentions_checked': 2000,
+              'login_rounds_layout_changed:reply-confirms-client-id': 40,
+              'login_rounds_layout_changed:reply-changes-client-id': 8,
+              'login_rounds_reported_max_logins_differs': 15,
+              'login_rounds_after_options_edited_on_the_object': 40,
+              'login_rounds_second_login_of_the_object': 12,
+              'login_default_group_sets_checked': 100,
+              'login_audio_mentions_checked': 130, 'login_control_mentions_checked': 160,
+              'login_buffer_mentions_checked': 1000,
               'oracle_selftests': 1},
     'thorough': {'ops_compared': 1_500_000, 'messages_grammar_checked': 1_500_000,
                  'id_mentions_checked': 1_500_000, 'ledger_checks': 1_500_000,
@@ -178,6 +217,15 @@ MIN_COUNTERS = {
                  'entry_lifecycle:unregister': 3, 'entry_rootnode_refusals_checked': 600,
                  'entry_data_files_parsed': 400, 'entry_stream_chunks_compared': 600,
                  'entry_silent_calls_checked': 600, 'entry_sync_points_observed': 1200,
+                 'login_rounds_checked': 3000, 'login_id_mentions_checked': 80_000,
+                 'login_rounds_layout_changed:reply-confirms-client-id': 1500,
+                 'login_rounds_layout_changed:reply-changes-client-id': 300,
+                 'login_rounds_reported_max_logins_differs': 600,
+                 'login_rounds_after_options_edited_on_the_object': 1500,
+                 'login_rounds_second_login_of_the_object': 500,
+                 'login_default_group_sets_checked': 4000,
+                 'login_audio_mentions_checked': 5000, 'login_control_mentions_checked': 6000,
+                 'login_buffer_mentions_checked': 40_000,
                  'oracle_selftests': 1},
 }
 
@@ -246,8 +294,14 @@ def plan(tier, seed):
                    'first_case': 0, 'n': 600 if quick else 20_000,
                    'secs': min(secs, 30 if quick else 300),
                    'hard_timeout': secs + 120})
+    # login histories: fresh Server objects, options edited, login reply (vf/c17_login.py)
+    n = 700 if quick else 24_000
+    for p, (f, k) in enumerate(split(n, 1 if quick else 2)):
+        shards.append({'name': f'rtlogin{p}', 'mode': 'rt', 'kind': 'rtlogin',
+                       'first_case': f, 'n': k, 'secs': min(secs, 30 if quick else 400),
+                       'hard_timeout': secs + 120})
     # the shards that are paced by wall-clock waits start first (16 workers)
-    first = {'rtalive': 0, 'rtstream': 0, 'rtbig': 0, 'rtentry': 1}
+    first = {'rtalive': 0, 'rtstream': 0, 'rtbig': 0, 'rtentry': 1, 'rtlogin': 1}
     shards.sort(key=lambda s: first.get(s['kind'], 2))
     only = os.environ.get('VF_C17_ONLY')        # development aid: shard kinds to run
     if only:
@@ -276,7 +330,10 @@ def run_shard(spec, acc):
 
     kind = spec['shard']['kind']
     mode = 'rt' if kind in ('rt', 'rtsync', 'rtalive', 'rtbig', 'rtstream',
-                            'rtmulti', 'rtnest', 'rtentry') else 'nrt'
+                            'rtmulti', 'rtnest', 'rtentry', 'rtlogin') else 'nrt'
+    if kind == 'rtlogin':
+        run_login_shard(spec, acc, m, main)
+        return
     if kind == 'rtentry':
         run_entry_shard(spec, acc, m, main)
         return
@@ -681,3 +738,40 @@ def run_entry_shard(spec, acc, m, main):
             pass
     if cases and timeouts > max(3, cases // 20):
         acc.mark_inconclusive(f'{timeouts}/{cases} entry point cases timed out')
+
+
+def run_login_shard(spec, acc, m, main):
+    """Login histories (vf/c17_login.py): Server constructed, options edited,
+    /done /notify reply through the responder path, ids judged by layout."""
+    from vf import osc, c17_entry, c17_login, c17_exec
+    from sc3.base.netaddr import NetAddr
+    from sc3.synth.server import Server, ServerOptions
+    wire = c17_entry.Wire(main)
+    ctx = c17_login.Ctx(m, main, wire, acc.count, Server, ServerOptions, NetAddr)
+    timeouts = cases = 0
+    for i in iter_cases(spec):
+        rng = case_rng(spec['seed'], 'C17', 'rtlogin', i)
+        case = c17_login.gen_case(rng)
+        cases += 1
+        try:
+            if c17_login.run_case(ctx, case) == 'timeout':
+                timeouts += 1
+                acc.count('login_cases_timed_out')
+            else:
+                acc.count('login_cases_checked')
+        except c17_exec.Violation as v:
+            w = dict(v.witness)
+            w.update({'case': i, 'kind': 'rtlogin'})
+            acc.violation(v.key, w)
+        except osc.OscError as e:
+            acc.violation('C17/wire/packet-is-not-valid-osc',
+                          {'case': i, 'why': str(e), 'login': case})
+        acc.case(h64(repr(case)), nontrivial=any(
+            r['edits'] or r['reply']['max_logins'] not in (None, r['options_now']['max_logins'])
+            for r in case['rounds']))
+        acc.count('histories')
+        acc.count('rt_histories')
+        if acc.want_sample() and len(case['rounds']) == 2:
+            acc.sample({'case': i, 'kind': 'rtlogin', 'login': case})
+    if cases and timeouts > max(3, cases // 20):
+        acc.mark_inconclusive(f'{timeouts}/{cases} login cases timed out')
